@@ -51,8 +51,7 @@ def make_ctx(d, lib, need, prebody, name="p", enwikt=True):
     ctx = Wtp(db_path=str(sub / "pages.db"), quiet=True, quiet_output=True, project="wiktionary" if enwikt else "wikipedia")
     luastub.install(ctx)
     luastub.add_module(ctx, "M", MODULE_M.replace("PREBODY", lua_long(tr.render(prebody))))
-    for nm, segs in lib.items():
-        ctx.add_page("Template:" + nm, 10, body=tr.render_body(segs), need_pre_expand=nm in need)
+    tr.install(ctx, lib, need)
     ctx.db_conn.commit()
     return ctx
 
